@@ -25,6 +25,7 @@ type ChanObj struct {
 	onBlock  []FuncV
 	onSend   FuncV
 	onRecv   FuncV
+	onClose  FuncV
 	name     string
 	sends    int
 	recvs    int
@@ -171,6 +172,9 @@ func (e *Engine) chanClose(c *ChanObj) {
 	}
 	if c.closed {
 		e.progPanic("close of closed channel " + c.String())
+	}
+	if c.onClose.Fn != nil {
+		e.callValue(c.onClose)
 	}
 	c.closed = true
 	e.tracef("close %s", c)
